@@ -198,12 +198,39 @@ def install_shims():
     SF.SourceFile._token_of_node = _token_of_node
 
 
+_module_state0 = None
+
+
+def fresh_process_state():
+    """Every session of the model starts in a fresh interpreter process: module-level containers of the package
+    (dict / list / set globals of inline_snapshot.*) get the contents they had when the harness was loaded.  Without
+    this, state that a path (or an earlier session of the same path) leaves in a module would reach the next one,
+    which no real run can do - a counterexample found that way would not replay."""
+    global _module_state0
+    with NoTracing():
+        if _module_state0 is None:
+            _module_state0 = []
+            for name, mod in sorted(sys.modules.items()):
+                if (name == "inline_snapshot" or name.startswith("inline_snapshot.")) and mod is not None:
+                    for k, v in list(vars(mod).items()):
+                        if not k.startswith("__") and type(v) in (dict, list, set):
+                            _module_state0.append((mod, k, v, type(v)(v)))
+            return
+        for mod, k, obj, initial in _module_state0:
+            if type(obj) is list:
+                obj[:] = initial
+            else:
+                obj.clear()
+                obj.update(initial)
+
+
 def reset(ns: Dict[str, Any]):
     W.ns = dict(ns)
     W.ph = {}
     W.n = 0
     with NoTracing():
         PR.all_problems.clear()
+    fresh_process_state()
 
 
 def eval_ns() -> Dict[str, Any]:
@@ -290,6 +317,7 @@ def core_session(text: str, approved, *, update_flags=None, extra_globals=None, 
     SourceFile.new_code().  `approved` = set of categories to apply; update_flags defaults to `approved`
     (what pytest_configure does for plain category flags)."""
     res = SessionResult()
+    fresh_process_state()
     text = prepare(text)
     res.text_before = text
     res.text = text
@@ -587,6 +615,7 @@ def plugin_session(files, *, cli=None, env_flags=None, tty=False, ci_var=None, p
     from inline_snapshot._global_state import state
 
     install_plugin_shims()
+    fresh_process_state()
     res = PluginResult()
     if isinstance(files, str):
         files = {"test_a.py": files}
